@@ -12,7 +12,7 @@ VERUS = {
 
 PROP_UNITS = {
     'C01': {'verus': ['int_mul', 'int_mul_scale', 'int_mul_simple'],
-            'undecided': ['mul_dword_in_place (chunks_exact_mut)', 'karatsuba, toom_3, helpers, sqr (bounded/undecided)']},
+            'undecided': ['mul/ntt.rs is dead code; scratch-memory sizing (memory_requirement_*) is not verified (too small means panic, never a wrong value)']},
     'C16': {'verus': ['int_mul', 'int_mul_scale', 'int_mul_simple']},
     'C19': {'verus': ['int_mul', 'int_mul_scale', 'int_mul_simple']},
 }
